@@ -121,11 +121,11 @@ Proof. unfold cyc0. apply Nat.mod_upper_bound. lia. Qed.
 
 Let wk0 : nat -> wk := fun w => nth w workers wk_fresh.
 
-Lemma resume_entries_ok : entries_ok c wk0 workers (sn_workers sn) sn.
+Lemma resume_entries_ok : entries_ok c wk0 true workers (sn_workers sn) sn.
 Proof.
   destruct Hws as [Hlen _]. assert (length (sn_workers sn) = W) as Hl by (unfold workers in Hlen; rewrite map_length in Hlen; exact Hlen).
   split; [intros w Hw; split; reflexivity|]. split; [exact Hl|]. split; [|reflexivity].
-  intros w Hw. unfold wk0, workers.
+  intros _ w Hw. unfold wk0, workers.
   change wk_fresh with ((fun sv : wsave => wk_restored (fst sv, snd sv)) (0, false)). rewrite map_nth. cbn.
   destruct (nth w (sn_workers sn) (0, false)); reflexivity.
 Qed.
@@ -133,7 +133,7 @@ Qed.
 Lemma resume_state : forall sched, sd_steps d <= length (refsuf W B 0 cyc0) ->
   exists sr sched' gw rd a R, sdl_resume c d sched = (sr, sched') /\
     InvC c B cyc0 gw rd a R sr /\ Rest c B gw rd R sr (skipn (sd_steps d) (refsuf W B 0 cyc0)) /\ Act c gw rd a sr /\
-    InvS c B (m_ny sr) gw rd sr /\ InvW c cyc0 wk0 gw rd a sr /\ InvX c B cyc0 wk0 gw rd sr /\
+    InvS c B (m_ny sr) gw rd sr /\ InvW c cyc0 wk0 true gw rd a sr /\ InvX c B cyc0 wk0 true gw rd sr /\
     m_ny sr = sn_step sn + sd_steps d /\ (sd_steps d = 0 \/ c_I c = 0 -> m_snapshot sr = sn).
 Proof.
   intros sched Hsteps. unfold sdl_resume. rewrite Hkind, Hst. cbn [negb].
@@ -141,12 +141,12 @@ Proof.
   replace (map (fun sv : wsave => wk_restored (fst sv, if true then snd sv else false)) (sn_workers sn)) with workers by reflexivity.
   match goal with |- context [iter_n (try_put_index c) (c_P c * W) ?S] =>
     assert (S = init0 c cyc0 workers (sn_step sn) (fst (sn_main sn)) (snd (sn_main sn)) (sn_last sn) (sn_workers sn) sn) as -> by reflexivity end.
-  destruct (start_iter c Hkind HW HP B cyc0 cyc0_lt Ha0 wk0 workers (sn_step sn) (fst (sn_main sn)) (snd (sn_main sn)) (sn_last sn) (sn_workers sn) sn Hws resume_entries_ok)
+  destruct (start_iter c Hkind HW HP B cyc0 cyc0_lt Ha0 wk0 true workers (sn_step sn) (fst (sn_main sn)) (snd (sn_main sn)) (sn_last sn) (sn_workers sn) sn Hws resume_entries_ok)
     as (gw & rd & R & H & HR & HA & HS & Eny & HWw & HX).
   cbn zeta in H, HR, HA, HS, Eny, HWw, HX.
   set (s3 := iter_n (try_put_index c) (c_P c * W) _) in *.
   assert (m_snapshot s3 = sn) as Esn3 by (unfold s3; rewrite iter_put_snap; reflexivity).
-  destruct (replay_iter c Hkind HW HP B cyc0 cyc0_lt wk0 (sd_steps d) gw rd (a0 cyc0) R s3 (refsuf W B 0 cyc0) sched Hsteps H HR HA HS HWw HX)
+  destruct (replay_iter c Hkind HW HP B cyc0 cyc0_lt wk0 true (sd_steps d) gw rd (a0 cyc0) R s3 (refsuf W B 0 cyc0) sched Hsteps H HR HA HS HWw HX)
     as (s4 & sched4 & gw' & rd' & a' & R' & E & H4 & HR4 & HA4 & HS4 & Eny4 & HW4 & HX4 & _).
   rewrite E.
   match goal with |- exists sr sched', _ = (sr, sched') /\ _ => idtac | |- exists sr sched' gw rd a R, (?S, ?SC) = _ /\ _ => set (sF := S) end.
@@ -157,8 +157,8 @@ Proof.
   split; [apply (InvC_ext c B cyc0 gw' rd' a' R' s4 sF H4 Hag); [rewrite Hinf; exact (c_wf _ _ _ _ _ _ _ _ H4) | intros; rewrite Hinf; reflexivity | rewrite Hinf; reflexivity]|].
   split; [exact (Rest_agree c B gw' rd' R' s4 sF _ HR4 Hag)|]. split; [exact (Act_agree c gw' rd' a' s4 sF HA4 Hag)|].
   split; [exact (InvS_ext c B (m_ny s4) gw' rd' s4 sF HS4 HagS ltac:(rewrite Hinf; reflexivity))|].
-  split; [apply (InvW_ext c cyc0 wk0 gw' rd' a' s4 sF HW4); [unfold agreeW; repeat split; reflexivity | intros; reflexivity]|].
-  split; [apply (InvX_ext c B cyc0 wk0 gw' rd' s4 sF HX4); [unfold agreeX; repeat split; reflexivity | intros; reflexivity]|].
+  split; [apply (InvW_ext c cyc0 wk0 true gw' rd' a' s4 sF HW4); [unfold agreeW; repeat split; reflexivity | intros; reflexivity]|].
+  split; [apply (InvX_ext c B cyc0 wk0 true gw' rd' s4 sF HX4); [unfold agreeX; repeat split; reflexivity | intros; reflexivity]|].
   split; [change (m_ny sF) with (m_ny s4); rewrite Eny4, Eny; reflexivity|].
   intros [E0|HI0].
   - rewrite E0 in E. cbn [replay] in E. injection E as <- _. exact Esn3.
@@ -170,7 +170,7 @@ Theorem resume_main_exact : forall sched, sd_steps d <= length (refsuf W B 0 cyc
   outcomes c (S (length (refsuf W B 0 cyc0) - sd_steps d)) sr sched' = map OBatch (skipn (sd_steps d) (refsuf W B 0 cyc0)) ++ [OStop].
 Proof.
   intros sched Hsteps. destruct (resume_state sched Hsteps) as (sr & sched' & gw & rd & a & R & E & H & HR & HA & HS & HWw & HX & _).
-  rewrite E. pose proof (outcomes_iter c Hkind HW HP B cyc0 cyc0_lt wk0 _ gw rd a R sr sched' H HR HA HS HWw HX) as Hout.
+  rewrite E. pose proof (outcomes_iter c Hkind HW HP B cyc0 cyc0_lt wk0 true _ gw rd a R sr sched' H HR HA HS HWw HX) as Hout.
   rewrite skipn_length in Hout. exact Hout.
 Qed.
 
@@ -203,7 +203,7 @@ Theorem iter_resume_exact_I0 : forall k sched1 sched2, k <= length (reference c)
 Proof.
   intros k sched1 sched2 Hk.
   destruct (fresh_start c Hkind HW HP) as (gw & rd & R & H & HR & HA & HS & Eny & HWw & HX).
-  destruct (replay_iter c Hkind HW HP (Bw c) 0 HW wk_fresh0 k gw rd (a0 0) R (sdl_fresh c) (reference c) sched1 Hk H HR HA HS HWw HX)
+  destruct (replay_iter c Hkind HW HP (Bw c) 0 HW wk_fresh0 true k gw rd (a0 0) R (sdl_fresh c) (reference c) sched1 Hk H HR HA HS HWw HX)
     as (sk & sched1' & gw' & rd' & a' & R' & E & _ & _ & _ & _ & Enk & _).
   pose proof (replay_snap k (sdl_fresh c) sched1) as Hsn. rewrite E in *. cbn [fst] in Hsn.
   assert (m_snapshot (sdl_fresh c) = snap0) as Hs0 by (unfold sdl_fresh; rewrite iter_put_snap; reflexivity).
@@ -221,6 +221,9 @@ Proof.
 Qed.
 
 End ResumeNoSnapshots.
+Check iter_resume_exact_I0.
+Print Assumptions iter_resume_exact_I0.
+Print Assumptions resume_main_exact.
 
 (* ------------------------------------------------------------------ *)
 (* snapshot_every_n_steps = 1 (the default), for any iterator of the family (fresh or built from a state dict) *)
@@ -282,13 +285,13 @@ Proof. intros Hw Hj. apply (fut_congr c Hkind B w j (wsk c cyc0 wk0 w j)); [refl
 
 (* the entry of worker w written at the last hand-out is its state after ALL its tasks at slots before the pointer that follows
    the handed-out slot (capped at its end-of-shard notice) *)
-Lemma entry_exact gw rd a R s w : InvC c B cyc0 gw rd a R s -> InvX c B cyc0 wk0 gw rd s -> PostH c B gw rd s -> w < W ->
+Lemma entry_exact gw rd a R s w : InvC c B cyc0 gw rd a R s -> InvX c B cyc0 wk0 true gw rd s -> PostH c B gw rd s -> w < W ->
   let kk := m_rcvd s - 1 in
   let R1 := if S (gw kk) =? W then S (rd kk) else rd kk in
   let c1 := if S (gw kk) =? W then 0 else S (gw kk) in
   exists j, nth w (m_wsnap s) (0, false) = wstf w j /\ a0 cyc0 w <= j /\ (j = cnt R1 c1 w \/ (nb B w < j /\ j <= cnt R1 c1 w)).
 Proof.
-  intros H HX HPo Hw. cbn zeta. destruct (HPo HI1) as (Hr0 & _ & _ & _ & Hdk).
+  intros H HX HPo Hw. cbn zeta. destruct (HPo HI1) as (Hr0 & _ & _ & _ & Hdk & _).
   set (kk := m_rcvd s - 1) in *. set (u := gw kk) in *.
   assert (kk < m_rcvd s) as Hkk by lia. pose proof (c_kn _ _ _ _ _ _ _ _ H) as Hkn.
   assert (u < W) as Hu by (apply (c_gw _ _ _ _ _ _ _ _ H); lia).
@@ -297,7 +300,7 @@ Proof.
   pose proof (c_base _ _ _ _ _ _ _ _ H kk ltac:(lia)) as Hbase. fold u in Hbase.
   assert (a0 cyc0 w <= cnt R1 c1 w) as Ha0c.
   { unfold a0, cnt, b2n, R1, c1. destruct (Nat.eqb_spec (S u) W); repeat match goal with |- context [?x <? ?y] => destruct (Nat.ltb_spec x y) end; lia. }
-  destruct (x_s _ _ _ _ _ _ _ HX HI1 w Hw) as (j & Ej & Hmax & Hj). exists j. split; [exact Ej|].
+  destruct (x_s _ _ _ _ _ _ _ _ HX HI1 eq_refl w Hw) as (j & Ej & Hmax & Hj). exists j. split; [exact Ej|].
   assert (a0 cyc0 w <= j) as Haj.
   { destruct Hj as [->|(t & T1 & T2 & T3 & T4)]; [lia|]. unfold a0. destruct (w <? cyc0); lia. }
   split; [exact Haj|].
@@ -344,16 +347,16 @@ Definition Good1 (rest : list (list nat)) (s : ms) : Prop :=
   exists B cyc0 wk0 gw rd a R, cyc0 < W /\ (forall w, w < W -> a0 cyc0 w <= nb B w) /\
     (forall w, w < W -> Fut c B w (a0 cyc0 w) (wk0 w)) /\
     InvC c B cyc0 gw rd a R s /\ Rest c B gw rd R s rest /\ Act c gw rd a s /\ InvS c B (m_ny s) gw rd s /\
-    InvW c cyc0 wk0 gw rd a s /\ InvX c B cyc0 wk0 gw rd s /\ SnapOK B cyc0 wk0 rest s.
+    InvW c cyc0 wk0 true gw rd a s /\ InvX c B cyc0 wk0 true gw rd s /\ SnapOK B cyc0 wk0 rest s.
 
 (* (A) the start state of any iterator of the family whose snapshot entry is the state it was built from *)
 Lemma iter_start_good B cyc0 wk0 workers ny0 siy0 samp0 last0 wsnap snap :
-  cyc0 < W -> (forall w, w < W -> a0 cyc0 w <= nb B w) -> workers_ok c B cyc0 workers -> entries_ok c wk0 workers wsnap snap ->
+  cyc0 < W -> (forall w, w < W -> a0 cyc0 w <= nb B w) -> workers_ok c B cyc0 workers -> entries_ok c wk0 true workers wsnap snap ->
   sn_step snap = ny0 -> S (sn_last snap) mod W = cyc0 ->
   Good1 (refsuf W B 0 cyc0) (iter_n (try_put_index c) (c_P c * W) (init0 c cyc0 workers ny0 siy0 samp0 last0 wsnap snap)).
 Proof.
   intros Hc0 Ha0 Hok Hent Est Ela.
-  destruct (start_iter c Hkind HW HP B cyc0 Hc0 Ha0 wk0 workers ny0 siy0 samp0 last0 wsnap snap Hok Hent) as (gw & rd & R & H & HR & HA & HS & Eny & HWw & HX).
+  destruct (start_iter c Hkind HW HP B cyc0 Hc0 Ha0 wk0 true workers ny0 siy0 samp0 last0 wsnap snap Hok Hent) as (gw & rd & R & H & HR & HA & HS & Eny & HWw & HX).
   cbn zeta in *. set (s := iter_n (try_put_index c) (c_P c * W) _) in *.
   assert (m_snapshot s = snap) as Esn by (unfold s; rewrite iter_put_snap; reflexivity).
   destruct Hent as (E1 & E2 & E3 & E4). destruct Hok as [Hlen Hws].
@@ -362,19 +365,19 @@ Proof.
   split; [exact H|]. split; [exact HR|]. split; [exact HA|]. split; [exact HS|]. split; [exact HWw|]. split; [exact HX|].
   unfold SnapOK. rewrite Esn, Eny. split; [exact Est|]. split; [rewrite E4; exact E2|].
   exists 0, cyc0. split; [exact Hc0|]. split; [exact Ela|]. split; [right; lia|]. split; [reflexivity|].
-  intros w Hw. exists (a0 cyc0 w). rewrite E4, (E3 w Hw), (wst_a0 c cyc0 wk0 w). split; [reflexivity|]. split; [lia|]. left. apply a0_cnt.
+  intros w Hw. exists (a0 cyc0 w). rewrite E4, (E3 eq_refl w Hw), (wst_a0 c cyc0 wk0 w). split; [reflexivity|]. split; [lia|]. left. apply a0_cnt.
 Qed.
 
 (* the state right after a batch was handed out is good again *)
 Lemma good_of_post B cyc0 wk0 gw' rd' a' R' s' rest : cyc0 < W -> (forall w, w < W -> a0 cyc0 w <= nb B w) ->
   (forall w, w < W -> Fut c B w (a0 cyc0 w) (wk0 w)) ->
   InvC c B cyc0 gw' rd' a' R' s' -> Rest c B gw' rd' R' s' rest -> Act c gw' rd' a' s' -> InvS c B (m_ny s') gw' rd' s' ->
-  InvW c cyc0 wk0 gw' rd' a' s' -> InvX c B cyc0 wk0 gw' rd' s' -> PostH c B gw' rd' s' -> Good1 rest s'.
+  InvW c cyc0 wk0 true gw' rd' a' s' -> InvX c B cyc0 wk0 true gw' rd' s' -> PostH c B gw' rd' s' -> Good1 rest s'.
 Proof.
   intros Hc0 Ha0 Hf0 H' HR' HA' HS' HW' HX' HP'.
   exists B, cyc0, wk0, gw', rd', a', R'. split; [exact Hc0|]. split; [exact Ha0|]. split; [exact Hf0|].
   split; [exact H'|]. split; [exact HR'|]. split; [exact HA'|]. split; [exact HS'|]. split; [exact HW'|]. split; [exact HX'|].
-  destruct (HP' HI1) as (Hr0 & Psn & Pst & Pla & Pdk).
+  destruct (HP' HI1) as (Hr0 & Psn & Pst & Pla & Pdk & Pml).
   set (kk := m_rcvd s' - 1) in *. set (u := gw' kk) in *.
   pose proof (c_kn _ _ _ _ _ _ _ _ H') as Hkn.
   assert (u < W) as Hu by (apply (c_gw _ _ _ _ _ _ _ _ H'); lia).
@@ -382,7 +385,7 @@ Proof.
   assert (c1 < W) as Hc1 by (unfold c1; destruct (Nat.eqb_spec (S u) W); lia).
   pose proof (c_base _ _ _ _ _ _ _ _ H' kk ltac:(lia)) as Hbase. fold u in Hbase.
   assert (0 < R1 \/ cyc0 <= c1) as Hb1 by (unfold R1, c1; destruct (Nat.eqb_spec (S u) W); lia).
-  unfold SnapOK. split; [exact Pst|]. split; [rewrite Psn; exact (w_len _ _ _ _ _ _ _ HW')|].
+  unfold SnapOK. split; [exact Pst|]. split; [rewrite Psn; exact (w_len _ _ _ _ _ _ _ _ HW')|].
   exists R1, c1. split; [exact Hc1|]. split.
   { rewrite Pla. fold u. unfold c1. destruct (Nat.eqb_spec (S u) W) as [EW|NW]; [rewrite EW; apply Nat.mod_same; lia | apply Nat.mod_small; lia]. }
   split; [exact Hb1|]. split.
@@ -405,7 +408,7 @@ Lemma iter_step_good b rest s sched : Good1 (b :: rest) s ->
   exists s' sched', sdl_next c s sched = (OBatch b, s', sched') /\ Good1 rest s'.
 Proof.
   intros (B & cyc0 & wk0 & gw & rd & a & R & Hc0 & Ha0 & Hf0 & H & HR & HA & HS & HWw & HX & _).
-  destruct (sdl_next_iter c Hkind HW HP B cyc0 Hc0 wk0 gw rd a R s (b :: rest) sched H HR HA HS HWw HX)
+  destruct (sdl_next_iter c Hkind HW HP B cyc0 Hc0 wk0 true gw rd a R s (b :: rest) sched H HR HA HS HWw HX)
     as (s' & sched' & gw' & rd' & a' & R' & E & H' & HR' & HA' & HS' & Eny & HW' & HX' & HP').
   exists s', sched'. split; [exact E|]. exact (good_of_post B cyc0 wk0 gw' rd' a' R' s' rest Hc0 Ha0 Hf0 H' HR' HA' HS' HW' HX' HP').
 Qed.
@@ -417,7 +420,7 @@ Lemma iter_fault_step_good rest s cr evs fuel : Good1 rest s ->
     (benignF o \/ match rest with [] => o = FO OStop | b :: rest' => o = FO (OBatch b) /\ Good1 rest' s' end).
 Proof.
   intros (B & cyc0 & wk0 & gw & rd & a & R & Hc0 & Ha0 & Hf0 & H & HR & HA & HS & HWw & HX & _).
-  destruct (next_data_f_iter c Hkind HW HP B cyc0 Hc0 wk0 fuel gw rd a R s rest cr evs H HR HA HS HWw HX) as (o & s' & cr' & evs' & E & Hpost).
+  destruct (next_data_f_iter c Hkind HW HP B cyc0 Hc0 wk0 true fuel gw rd a R s rest cr evs H HR HA HS HWw HX) as (o & s' & cr' & evs' & E & Hpost).
   exists o, s', cr', evs'. split; [exact E|]. destruct Hpost as [Hb|Hpost]; [left; exact Hb|right].
   destruct rest as [|b rest']; [exact Hpost|]. destruct Hpost as [-> (gw' & rd' & a' & R' & H' & HR' & HA' & HS' & HW' & HX' & HP')].
   split; [reflexivity|]. exact (good_of_post B cyc0 wk0 gw' rd' a' R' s' rest' Hc0 Ha0 Hf0 H' HR' HA' HS' HW' HX' HP').
@@ -471,7 +474,7 @@ Qed.
 Lemma iter_good_outcomes rest s sched : Good1 rest s -> outcomes c (S (length rest)) s sched = map OBatch rest ++ [OStop].
 Proof.
   intros (B & cyc0 & wk0 & gw & rd & a & R & Hc0 & Ha0 & Hf0 & H & HR & HA & HS & HWw & HX & _).
-  exact (outcomes_iter c Hkind HW HP B cyc0 Hc0 wk0 rest gw rd a R s sched H HR HA HS HWw HX).
+  exact (outcomes_iter c Hkind HW HP B cyc0 Hc0 wk0 true rest gw rd a R s sched H HR HA HS HWw HX).
 Qed.
 
 Lemma iter_fresh_good : Good1 (reference c) (sdl_fresh c).
@@ -528,7 +531,52 @@ Proof.
   pose proof (iter_good_outcomes _ sr sched' G2) as Ho. rewrite skipn_length in Ho. exact Ho.
 Qed.
 
+
+(* the remaining stream starts at the slot that follows the last handed-out one *)
+Lemma rest_at_pointer B cyc0 gw' rd' a' R' s' rest : cyc0 < W ->
+  InvC c B cyc0 gw' rd' a' R' s' -> Rest c B gw' rd' R' s' rest -> PostH c B gw' rd' s' ->
+  let kk := m_rcvd s' - 1 in let u := gw' kk in
+  u < W /\ rd' kk < nb B u /\
+  refsuf W B (if S u =? W then S (rd' kk) else rd' kk) (if S u =? W then 0 else S u) = rest.
+Proof.
+  intros Hc0 H' HR' HP'. cbn zeta. destruct (HP' HI1) as (Hr0 & Psn & Pst & Pla & Pdk & Pml).
+  set (kk := m_rcvd s' - 1) in *. set (u := gw' kk) in *.
+  pose proof (c_kn _ _ _ _ _ _ _ _ H') as Hkn.
+  assert (u < W) as Hu by (apply (c_gw _ _ _ _ _ _ _ _ H'); lia).
+  set (R1 := if S u =? W then S (rd' kk) else rd' kk). set (c1 := if S u =? W then 0 else S u).
+  assert (c1 < W) as Hc1 by (unfold c1; destruct (Nat.eqb_spec (S u) W); lia).
+  pose proof (c_base _ _ _ _ _ _ _ _ H' kk ltac:(lia)) as Hbase. fold u in Hbase.
+  assert (0 < R1 \/ cyc0 <= c1) as Hb1 by (unfold R1, c1; destruct (Nat.eqb_spec (S u) W); lia).
+  split; [exact Hu|]. split; [exact Pdk|].
+  assert (kk < m_send s') as Hkks by lia.
+  destruct (c_d _ _ _ _ _ _ _ _ H' u Hu) as (_ & D2u & D3u). specialize (D2u kk Hkks eq_refl).
+  assert (dsp a' s' u <= cnt R' (m_cyc s') u) as Hdu by (destruct (act s' u); lia).
+  pose proof (c_cyc _ _ _ _ _ _ _ _ H') as Hcyc.
+  rewrite (walk_rest c HW HP B cyc0 Hc0 gw' rd' a' R' s' H' _ R1 c1 (m_rcvd s') eq_refl); [symmetry; exact HR' | | exact Hc1 | exact Hb1 | exact Hkn | | ].
+  + revert D2u Hdu. unfold cnt, b2n, R1, c1. generalize (dsp a' s' u). intros du.
+    destruct (Nat.eqb_spec (S u) W); repeat match goal with |- context [?x <? ?y] => destruct (Nat.ltb_spec x y) end; lia.
+  + intros t Ht. pose proof (c_mono _ _ _ _ _ _ _ _ H' kk t ltac:(lia) ltac:(lia)) as M. fold u in M.
+    pose proof (c_gw _ _ _ _ _ _ _ _ H' t ltac:(lia)). unfold R1, c1. destruct (Nat.eqb_spec (S u) W); lia.
+  + intros t Ht. destruct (Nat.eq_dec t kk) as [->|Hne]; [fold u; unfold R1, c1; destruct (Nat.eqb_spec (S u) W); lia|].
+    pose proof (c_mono _ _ _ _ _ _ _ _ H' t kk ltac:(lia) ltac:(lia)) as M. fold u in M. unfold R1, c1. destruct (Nat.eqb_spec (S u) W); lia.
+Qed.
+
+(* the worker of the p-th handed-out batch does not depend on the arrival schedule *)
+Lemma last_worker_unique B cyc0 gw1 rd1 a1 R1 s1 gw2 rd2 a2 R2 s2 rest : cyc0 < W ->
+  InvC c B cyc0 gw1 rd1 a1 R1 s1 -> Rest c B gw1 rd1 R1 s1 rest -> PostH c B gw1 rd1 s1 ->
+  InvC c B cyc0 gw2 rd2 a2 R2 s2 -> Rest c B gw2 rd2 R2 s2 rest -> PostH c B gw2 rd2 s2 ->
+  gw1 (m_rcvd s1 - 1) = gw2 (m_rcvd s2 - 1).
+Proof.
+  intros Hc0 H1 HR1 HP1 H2 HR2 HP2.
+  destruct (rest_at_pointer B cyc0 gw1 rd1 a1 R1 s1 rest Hc0 H1 HR1 HP1) as (Hu1 & Hd1 & E1).
+  destruct (rest_at_pointer B cyc0 gw2 rd2 a2 R2 s2 rest Hc0 H2 HR2 HP2) as (Hu2 & Hd2 & E2).
+  destruct (pointer_unique c HW HP B cyc0 Hc0 _ _ _ _ Hu1 Hu2 Hd1 Hd2 ltac:(rewrite E1, E2; reflexivity)) as [_ E]. exact E.
+Qed.
+
 End EveryStep.
+Check iter_resume_chain_I1.
+Print Assumptions iter_resume_chain_I1.
+Print Assumptions iter_resume_exact_I1.
 
 (* ------------------------------------------------------------------ *)
 (* snapshot_every_n_steps = 0: chains of checkpoint/resume, for iterable datasets WITH their own state (restore path: the initial
@@ -544,7 +592,7 @@ Notation W := (c_W c).
 Definition Good0 (k : nat) (s : ms) : Prop :=
   exists B cyc0 wk0 gw rd a R, cyc0 < W /\
     InvC c B cyc0 gw rd a R s /\ Rest c B gw rd R s (skipn k (reference c)) /\ Act c gw rd a s /\ InvS c B (m_ny s) gw rd s /\
-    InvW c cyc0 wk0 gw rd a s /\ InvX c B cyc0 wk0 gw rd s /\ m_ny s = k /\ m_snapshot s = snap0 c /\ k <= length (reference c).
+    InvW c cyc0 wk0 true gw rd a s /\ InvX c B cyc0 wk0 true gw rd s /\ m_ny s = k /\ m_snapshot s = snap0 c /\ k <= length (reference c).
 
 Lemma fresh_good0 : Good0 0 (sdl_fresh c).
 Proof.
@@ -557,7 +605,7 @@ Lemma replay_good0 : forall j k s sched, Good0 k s -> k + j <= length (reference
   exists s' sched', replay c j s sched = (s', sched') /\ Good0 (k + j) s'.
 Proof.
   intros j k s sched (B & cyc0 & wk0 & gw & rd & a & R & Hc0 & H & HR & HA & HS & HWw & HX & Eny & Esn & Hk) Hkj.
-  destruct (replay_iter c Hkind HW HP B cyc0 Hc0 wk0 j gw rd a R s (skipn k (reference c)) sched ltac:(rewrite skipn_length; lia) H HR HA HS HWw HX)
+  destruct (replay_iter c Hkind HW HP B cyc0 Hc0 wk0 true j gw rd a R s (skipn k (reference c)) sched ltac:(rewrite skipn_length; lia) H HR HA HS HWw HX)
     as (s' & sched' & gw' & rd' & a' & R' & E & H' & HR' & HA' & HS' & Eny' & HW' & HX' & _).
   exists s', sched'. split; [exact E|]. rewrite skipn_skipn in HR'.
   exists B, cyc0, wk0, gw', rd', a', R'. split; [exact Hc0|]. split; [exact H'|]. split; [exact HR'|]. split; [exact HA'|]. split; [exact HS'|].
@@ -598,7 +646,7 @@ Proof.
   unfold sdl_resume. rewrite Hkind, Hnst. cbn [negb sd_snapshot sd_steps sd_finished].
   match goal with |- context [iter_n (try_put_index c) (c_P c * W) ?S] =>
     assert (S = init0 c 0 (repeat wk_fresh W) 0 0 0 (W - 1) (repeat (0, false) W) (snap0 c)) as -> by reflexivity end.
-  destruct (start_iter c Hkind HW HP (Bw c) 0 HW ltac:(intros w _; cbn; lia) wk_fresh0 (repeat wk_fresh W) 0 0 0 (W - 1)
+  destruct (start_iter c Hkind HW HP (Bw c) 0 HW ltac:(intros w _; cbn; lia) wk_fresh0 true (repeat wk_fresh W) 0 0 0 (W - 1)
               (repeat (0, false) W) (snap0 c) (fresh_workers_ok c Hkind) (fresh_entries_ok c (snap0 c) eq_refl)) as (gw2 & rd2 & R2 & H2 & HR2 & HA2 & HS2 & Eny2 & HW2 & HX2).
   cbn zeta in H2, HR2, HA2, HS2, Eny2, HW2, HX2. rewrite (refsuf_start c Hkind HW) in HR2.
   set (s2 := iter_n (try_put_index c) (c_P c * W) _) in *.
@@ -613,9 +661,9 @@ Proof.
   pose proof (Act_agree c gw2 rd2 (a0 0) s2 s2' HA2 Hag) as HA2'.
   assert (InvS c (Bw c) (m_ny s2') gw2 rd2 s2') as HS2'.
   { change (m_ny s2') with 0. rewrite <- Eny2. exact (InvS_ext c (Bw c) (m_ny s2) gw2 rd2 s2 s2' HS2 HagS ltac:(rewrite Hinf; reflexivity)). }
-  assert (InvW c 0 wk_fresh0 gw2 rd2 (a0 0) s2') as HW2' by (apply (InvW_ext c 0 wk_fresh0 gw2 rd2 (a0 0) s2 s2' HW2); [unfold agreeW; repeat split; reflexivity | intros; reflexivity]).
-  assert (InvX c (Bw c) 0 wk_fresh0 gw2 rd2 s2') as HX2' by (apply (InvX_ext c (Bw c) 0 wk_fresh0 gw2 rd2 s2 s2' HX2); [unfold agreeX; repeat split; reflexivity | intros; reflexivity]).
-  destruct (replay_iter c Hkind HW HP (Bw c) 0 HW wk_fresh0 k gw2 rd2 (a0 0) R2 s2' (reference c) sched Hk H2' HR2' HA2' HS2' HW2' HX2')
+  assert (InvW c 0 wk_fresh0 true gw2 rd2 (a0 0) s2') as HW2' by (apply (InvW_ext c 0 wk_fresh0 true gw2 rd2 (a0 0) s2 s2' HW2); [unfold agreeW; repeat split; reflexivity | intros; reflexivity]).
+  assert (InvX c (Bw c) 0 wk_fresh0 true gw2 rd2 s2') as HX2' by (apply (InvX_ext c (Bw c) 0 wk_fresh0 true gw2 rd2 s2 s2' HX2); [unfold agreeX; repeat split; reflexivity | intros; reflexivity]).
+  destruct (replay_iter c Hkind HW HP (Bw c) 0 HW wk_fresh0 true k gw2 rd2 (a0 0) R2 s2' (reference c) sched Hk H2' HR2' HA2' HS2' HW2' HX2')
     as (s4 & sched4 & gw' & rd' & a' & R' & E & H4 & HR4 & HA4 & HS4 & Eny4 & HW4 & HX4 & _).
   rewrite E.
   match goal with |- exists sr sched', (?S, ?SC) = _ /\ _ => set (sF := S) end.
@@ -626,8 +674,8 @@ Proof.
   split; [apply (InvC_ext c (Bw c) 0 gw' rd' a' R' s4 sF H4 Hag4); [exact (c_wf _ _ _ _ _ _ _ _ H4) | intros; reflexivity | reflexivity]|].
   split; [exact (Rest_agree c (Bw c) gw' rd' R' s4 sF _ HR4 Hag4)|]. split; [exact (Act_agree c gw' rd' a' s4 sF HA4 Hag4)|].
   split; [exact (InvS_ext c (Bw c) (m_ny s4) gw' rd' s4 sF HS4 HagS4 eq_refl)|].
-  split; [apply (InvW_ext c 0 wk_fresh0 gw' rd' a' s4 sF HW4); [unfold agreeW; repeat split; reflexivity | intros; reflexivity]|].
-  split; [apply (InvX_ext c (Bw c) 0 wk_fresh0 gw' rd' s4 sF HX4); [unfold agreeX; repeat split; reflexivity | intros; reflexivity]|].
+  split; [apply (InvW_ext c 0 wk_fresh0 true gw' rd' a' s4 sF HW4); [unfold agreeW; repeat split; reflexivity | intros; reflexivity]|].
+  split; [apply (InvX_ext c (Bw c) 0 wk_fresh0 true gw' rd' s4 sF HX4); [unfold agreeX; repeat split; reflexivity | intros; reflexivity]|].
   split; [change (m_ny sF) with (m_ny s4); rewrite Eny4; reflexivity|]. split; [|exact Hk].
   pose proof (replay_snap0 c HI0 k s2' sched) as Hr. rewrite E in Hr. cbn [fst] in Hr. change (m_snapshot sF) with (m_snapshot s4). rewrite Hr. exact Esn2.
 Qed.
@@ -654,7 +702,187 @@ Theorem iter_resume_chain_I0 : forall ks sched, fold_right Nat.add 0 ks <= lengt
 Proof.
   intros ks sched Hk. destruct (chain_good0 ks 0 (sdl_fresh c) sched fresh_good0 Hk) as (s' & sched' & E & G). rewrite E. cbn zeta. cbn [Nat.add] in G.
   destruct G as (B & cyc0 & wk0 & gw & rd & a & R & Hc0 & H & HR & HA & HS & HWw & HX & _).
-  pose proof (outcomes_iter c Hkind HW HP B cyc0 Hc0 wk0 _ gw rd a R s' sched' H HR HA HS HWw HX) as Ho. rewrite skipn_length in Ho. exact Ho.
+  pose proof (outcomes_iter c Hkind HW HP B cyc0 Hc0 wk0 true _ gw rd a R s' sched' H HR HA HS HWw HX) as Ho. rewrite skipn_length in Ho. exact Ho.
 Qed.
 
 End NoSnapshotsChain.
+Check iter_resume_chain_I0.
+Print Assumptions iter_resume_chain_I0.
+
+(* ------------------------------------------------------------------ *)
+(* snapshot_every_n_steps = 1, iterable datasets WITHOUT a state of their own: the fast-forward path of a resume — fresh workers, the
+   snapshot step replayed, the last-yielded-worker cross-check — and chains of it *)
+Section EveryStepFF.
+Variable c : cfg.
+Hypothesis Hkind : c_kind c = KIter.
+Hypothesis HW : 0 < c_W c.
+Hypothesis HP : 0 < c_P c.
+Hypothesis Hnst : c_stateful c = false.
+Hypothesis HI1 : c_I c = 1.
+Notation W := (c_W c).
+
+Lemma invS_any B y y' gw rd s : InvS c B y gw rd s -> InvS c B y' gw rd s.
+Proof.
+  intros [H1 H2 H3 H4]. constructor; [exact H1 | exact H2 | | exact H4].
+  intros HI t Ht Hd _. apply (H3 HI t Ht Hd). rewrite HI1. apply Nat.mod_1_r.
+Qed.
+
+Definition FreshAt (p : nat) (s : ms) : Prop :=
+  exists gw rd a R, InvC c (Bw c) 0 gw rd a R s /\ Rest c (Bw c) gw rd R s (skipn p (reference c)) /\ Act c gw rd a s /\
+    InvS c (Bw c) (m_ny s) gw rd s /\ InvW c 0 wk_fresh0 false gw rd a s /\ InvX c (Bw c) 0 wk_fresh0 false gw rd s /\
+    m_ny s = p /\ p <= length (reference c) /\ (0 < p -> PostH c (Bw c) gw rd s) /\ (p = 0 -> sn_step (m_snapshot s) = 0) /\
+    length (sn_workers (m_snapshot s)) = W.
+
+Lemma ff_entries_ok wsnap snap : length wsnap = W -> sn_workers snap = wsnap ->
+  entries_ok c wk_fresh0 false (repeat wk_fresh W) wsnap snap.
+Proof.
+  intros Hl Hs. split; [intros w Hw; rewrite nth_repeat_fresh'; split; reflexivity|]. split; [exact Hl|]. split; [intros Hf; discriminate | exact Hs].
+Qed.
+
+Lemma ff_start ny0 siy0 samp0 last0 wsnap snap : length wsnap = W -> sn_workers snap = wsnap ->
+  let s := iter_n (try_put_index c) (c_P c * W) (init0 c 0 (repeat wk_fresh W) ny0 siy0 samp0 last0 wsnap snap) in
+  exists gw rd R, InvC c (Bw c) 0 gw rd (a0 0) R s /\ Rest c (Bw c) gw rd R s (reference c) /\ Act c gw rd (a0 0) s /\
+    InvS c (Bw c) (m_ny s) gw rd s /\ m_ny s = ny0 /\ InvW c 0 wk_fresh0 false gw rd (a0 0) s /\ InvX c (Bw c) 0 wk_fresh0 false gw rd s.
+Proof.
+  intros Hl Hs. cbn zeta.
+  destruct (start_iter c Hkind HW HP (Bw c) 0 HW ltac:(intros w _; cbn; lia) wk_fresh0 false (repeat wk_fresh W) ny0 siy0 samp0 last0 wsnap snap
+              (fresh_workers_ok c Hkind) (ff_entries_ok wsnap snap Hl Hs)) as (gw & rd & R & H & HR & HA & HS & Eny & HWw & HX).
+  cbn zeta in *. rewrite (refsuf_start c Hkind HW) in HR. exists gw, rd, R. auto 10.
+Qed.
+
+Lemma fresh_at0 : FreshAt 0 (sdl_fresh c).
+Proof.
+  destruct (ff_start 0 0 0 (W - 1) (repeat (0, false) W) (snap_fresh c) (repeat_length _ _) eq_refl) as (gw & rd & R & H & HR & HA & HS & Eny & HWw & HX).
+  cbn zeta in *. change (iter_n (try_put_index c) (c_P c * W) _) with (sdl_fresh c) in *.
+  exists gw, rd, (a0 0), R. split; [exact H|]. split; [exact HR|]. split; [exact HA|]. split; [exact HS|]. split; [exact HWw|]. split; [exact HX|].
+  split; [exact Eny|]. split; [lia|]. split; [intros Hp; lia|].
+  split; [intros _; unfold sdl_fresh; rewrite iter_put_snap; reflexivity|]. unfold sdl_fresh. rewrite iter_put_snap. apply repeat_length.
+Qed.
+
+Lemma replay_ff : forall j p s sched, FreshAt p s -> p + j <= length (reference c) ->
+  exists s' sched', replay c j s sched = (s', sched') /\ FreshAt (p + j) s'.
+Proof.
+  intros j p s sched (gw & rd & a & R & H & HR & HA & HS & HWw & HX & Eny & Hp & HPo & Hs0 & Hlen) Hpj.
+  destruct j as [|j]; [exists s, sched; split; [reflexivity|]; rewrite Nat.add_0_r; exists gw, rd, a, R; auto 12|].
+  destruct (replay_iter c Hkind HW HP (Bw c) 0 HW wk_fresh0 false (S j) gw rd a R s (skipn p (reference c)) sched ltac:(rewrite skipn_length; lia) H HR HA HS HWw HX)
+    as (s' & sched' & gw' & rd' & a' & R' & E & H' & HR' & HA' & HS' & Eny' & HW' & HX' & HP').
+  exists s', sched'. split; [exact E|]. rewrite skipn_skipn in HR'.
+  exists gw', rd', a', R'. split; [exact H'|]. split; [exact HR'|]. split; [exact HA'|]. split; [exact HS'|]. split; [exact HW'|]. split; [exact HX'|].
+  split; [lia|]. split; [lia|]. split; [intros _; apply HP'; lia|]. split; [intros E0; lia|].
+  destruct (HP' ltac:(lia) HI1) as (_ & Psn & _). rewrite Psn. exact (w_len _ _ _ _ _ _ _ _ HW').
+Qed.
+
+Lemma fresh_at_ext p s s' : FreshAt p s -> agree s s' -> m_info s' = m_info s -> m_ny s' = m_ny s -> m_msnaps s' = m_msnaps s ->
+  agreeW s s' -> m_last s' = m_last s -> FreshAt p s'.
+Proof.
+  intros (gw & rd & a & R & H & HR & HA & HS & HWw & HX & Eny & Hp & HPo & Hs0 & Hlen) Hag Hinf Eny' Ems HagW Ela.
+  pose proof HagW as (Ew1 & Ew2 & Ew3 & Ew4).
+  exists gw, rd, a, R.
+  split; [apply (InvC_ext c (Bw c) 0 gw rd a R s s' H Hag); [rewrite Hinf; exact (c_wf _ _ _ _ _ _ _ _ H) | intros; rewrite Hinf; reflexivity | rewrite Hinf; reflexivity]|].
+  split; [exact (Rest_agree c (Bw c) gw rd R s s' _ HR Hag)|]. split; [exact (Act_agree c gw rd a s s' HA Hag)|].
+  split; [rewrite Eny'; exact (InvS_ext c (Bw c) (m_ny s) gw rd s s' HS (conj Hag (conj Eny' Ems)) ltac:(rewrite Hinf; reflexivity))|].
+  split; [apply (InvW_ext c 0 wk_fresh0 false gw rd a s s' HWw HagW); intros; rewrite Hinf; reflexivity|].
+  split; [apply (InvX_ext c (Bw c) 0 wk_fresh0 false gw rd s s' HX); [unfold agreeX; auto | intros; rewrite Hinf; reflexivity]|].
+  split; [lia|]. split; [exact Hp|].
+  split; [intros Hp0; specialize (HPo Hp0); unfold PostH in *; rewrite Ew2, Ew3, Ew4, Eny', Ela; exact HPo|].
+  rewrite Ew3. split; assumption.
+Qed.
+
+(* checkpoint + resume on the fast-forward path: fresh workers, the p batches of the snapshot step replayed (any arrival schedule), the
+   cross-check of the last-yielded worker passes, and the iterator is again a fresh iterator p batches in *)
+Lemma resume_ff p s sched : FreshAt p s -> exists sr sched', sdl_resume c (state_dict s) sched = (sr, sched') /\ FreshAt p sr.
+Proof.
+  intros (gw & rd & a & R & H & HR & HA & HS & HWw & HX & Eny & Hp & HPo & Hs0 & Hlen).
+  set (sn := m_snapshot s) in *.
+  assert (sn_step sn = p) as Estep.
+  { destruct (Nat.eq_dec p 0) as [E0|N0]; [rewrite (Hs0 E0); lia|]. destruct (HPo ltac:(lia) HI1) as (_ & _ & Pst & _). fold sn in Pst. lia. }
+  assert (state_dict s = {| sd_snapshot := sn; sd_steps := 0; sd_finished := m_finished s |}) as ->.
+  { unfold state_dict. fold sn. rewrite Estep, Eny, Nat.sub_diag. reflexivity. }
+  unfold sdl_resume. rewrite Hkind, Hnst. cbn [negb sd_snapshot sd_steps sd_finished].
+  match goal with |- context [iter_n (try_put_index c) (c_P c * W) ?S] =>
+    assert (S = init0 c 0 (repeat wk_fresh W) (sn_step sn) (fst (sn_main sn)) (snd (sn_main sn)) (W - 1) (sn_workers sn) sn) as -> by reflexivity end.
+  destruct (ff_start (sn_step sn) (fst (sn_main sn)) (snd (sn_main sn)) (W - 1) (sn_workers sn) sn Hlen eq_refl) as (gw2 & rd2 & R2 & H2 & HR2 & HA2 & HS2 & Eny2 & HW2 & HX2).
+  cbn zeta in H2, HR2, HA2, HS2, Eny2, HW2, HX2.
+  set (s2 := iter_n (try_put_index c) (c_P c * W) _) in *.
+  assert (m_snapshot s2 = sn) as Esn2 by (unfold s2; rewrite iter_put_snap; reflexivity).
+  rewrite Eny2, Estep.
+  match goal with |- context [replay c p ?S sched] => set (s2' := S) end.
+  assert (agree s2 s2') as Hag by (unfold agree, s2'; cbn; repeat split; reflexivity).
+  assert (m_info s2' = m_info s2) as Hinf by reflexivity.
+  assert (InvC c (Bw c) 0 gw2 rd2 (a0 0) R2 s2') as H2' by (apply (InvC_ext c (Bw c) 0 gw2 rd2 (a0 0) R2 s2 s2' H2 Hag); [rewrite Hinf; exact (c_wf _ _ _ _ _ _ _ _ H2) | intros; rewrite Hinf; reflexivity | rewrite Hinf; reflexivity]).
+  pose proof (Rest_agree c (Bw c) gw2 rd2 R2 s2 s2' _ HR2 Hag) as HR2'.
+  pose proof (Act_agree c gw2 rd2 (a0 0) s2 s2' HA2 Hag) as HA2'.
+  assert (InvS c (Bw c) (m_ny s2') gw2 rd2 s2') as HS2'.
+  { change (m_ny s2') with 0. destruct (invS_any (Bw c) (m_ny s2) 0 gw2 rd2 s2 HS2) as [A1 A2 A3 A4]. constructor; [exact A1 | exact A2 | exact A3 | exact A4]. }
+  assert (InvW c 0 wk_fresh0 false gw2 rd2 (a0 0) s2') as HW2' by (apply (InvW_ext c 0 wk_fresh0 false gw2 rd2 (a0 0) s2 s2' HW2); [unfold agreeW; repeat split; reflexivity | intros; reflexivity]).
+  assert (InvX c (Bw c) 0 wk_fresh0 false gw2 rd2 s2') as HX2' by (apply (InvX_ext c (Bw c) 0 wk_fresh0 false gw2 rd2 s2 s2' HX2); [unfold agreeX; repeat split; reflexivity | intros; reflexivity]).
+  assert (exists s3 sched3, replay c p s2' sched = (s3, sched3) /\ FreshAt p s3 /\ (0 < p -> m_last s3 = sn_last sn)) as (s3 & sched3 & E3 & F3 & L3).
+  { destruct p as [|p'].
+    - exists s2', sched. split; [reflexivity|]. split; [|intros Hp0; lia].
+      exists gw2, rd2, (a0 0), R2. split; [exact H2'|]. split; [exact HR2'|]. split; [exact HA2'|]. split; [exact HS2'|]. split; [exact HW2'|].
+      split; [exact HX2'|]. split; [reflexivity|]. split; [lia|]. split; [intros Hp0; lia|].
+      change (m_snapshot s2') with (m_snapshot s2). rewrite Esn2. split; [intros _; exact Estep | exact Hlen].
+    - destruct (replay_iter c Hkind HW HP (Bw c) 0 HW wk_fresh0 false (S p') gw2 rd2 (a0 0) R2 s2' (reference c) sched Hp H2' HR2' HA2' HS2' HW2' HX2')
+        as (s4 & sched4 & gw' & rd' & a' & R' & E & H4 & HR4 & HA4 & HS4 & Eny4 & HW4 & HX4 & HP4).
+      specialize (HP4 ltac:(lia)). specialize (HPo ltac:(lia)).
+      exists s4, sched4. split; [exact E|]. split.
+      + exists gw', rd', a', R'. split; [exact H4|]. split; [exact HR4|]. split; [exact HA4|]. split; [exact HS4|]. split; [exact HW4|].
+        split; [exact HX4|]. split; [rewrite Eny4; reflexivity|]. split; [exact Hp|]. split; [intros _; exact HP4|]. split; [intros E0; lia|].
+        destruct (HP4 HI1) as (_ & Psn & _). rewrite Psn. exact (w_len _ _ _ _ _ _ _ _ HW4).
+      + intros _. destruct (HP4 HI1) as (_ & _ & _ & _ & _ & Pml4). destruct (HPo HI1) as (_ & _ & _ & Pla & _). fold sn in Pla.
+        rewrite Pml4, Pla. exact (last_worker_unique c HW HP HI1 (Bw c) 0 gw' rd' a' R' s4 gw rd a R s _ HW H4 HR4 HP4 H HR HPo). }
+  rewrite E3.
+  assert ((0 <? p) && negb (m_last s3 =? sn_last sn) = false) as ->.
+  { destruct p as [|p']; [reflexivity|]. rewrite (L3 ltac:(lia)), Nat.eqb_refl. reflexivity. }
+  cbn [replay].
+  match goal with |- exists sr sched', (?S, ?SC) = _ /\ _ => set (sF := S) end.
+  exists sF, sched3. split; [reflexivity|].
+  apply (fresh_at_ext p s3 sF F3); [unfold agree, sF; cbn; repeat split; reflexivity | reflexivity | reflexivity | reflexivity | unfold agreeW; repeat split; reflexivity | reflexivity].
+Qed.
+
+Lemma chain_ff : forall ks p s sched, FreshAt p s -> p + fold_right Nat.add 0 ks <= length (reference c) ->
+  exists s' sched', chain c ks s sched = (s', sched') /\ FreshAt (p + fold_right Nat.add 0 ks) s'.
+Proof.
+  induction ks as [|j ks IH]; intros p s sched G Hk; [exists s, sched; rewrite Nat.add_0_r; auto|].
+  cbn [fold_right] in Hk. destruct (replay_ff j p s sched G ltac:(lia)) as (s1 & sc1 & E1 & G1).
+  destruct (resume_ff (p + j) s1 sc1 G1) as (s2 & sc2 & E2 & G2).
+  destruct (IH (p + j) s2 sc2 G2 ltac:(lia)) as (s' & sched' & E' & G').
+  exists s', sched'. cbn [chain fold_right]. rewrite E1, E2. split; [exact E'|]. replace (p + (j + fold_right Nat.add 0 ks)) with (p + j + fold_right Nat.add 0 ks) by lia. exact G'.
+Qed.
+
+Lemma fresh_at_outcomes p s sched : FreshAt p s ->
+  outcomes c (S (length (reference c) - p)) s sched = map OBatch (skipn p (reference c)) ++ [OStop].
+Proof.
+  intros (gw & rd & a & R & H & HR & HA & HS & HWw & HX & _).
+  pose proof (outcomes_iter c Hkind HW HP (Bw c) 0 HW wk_fresh0 false _ gw rd a R s sched H HR HA HS HWw HX) as Ho.
+  rewrite skipn_length in Ho. exact Ho.
+Qed.
+
+(* C01, iterable datasets WITHOUT a state of their own, snapshot_every_n_steps = 1 (the default): any finite chain of checkpoint/resume
+   — each resume builds fresh workers, replays the batches already given and cross-checks the last-yielded worker — yields exactly
+   the remaining stream, under every arrival schedule throughout (the replays included) *)
+Theorem iter_resume_chain_I1_ff : forall ks sched, fold_right Nat.add 0 ks <= length (reference c) ->
+  let '(s, sched') := chain c ks (sdl_fresh c) sched in
+  let p := fold_right Nat.add 0 ks in
+  outcomes c (S (length (reference c) - p)) s sched' = map OBatch (skipn p (reference c)) ++ [OStop].
+Proof.
+  intros ks sched Hk. destruct (chain_ff ks 0 (sdl_fresh c) sched fresh_at0 Hk) as (s' & sched' & E & G).
+  rewrite E. cbn zeta. exact (fresh_at_outcomes _ s' sched' G).
+Qed.
+
+End EveryStepFF.
+
+Print Assumptions iter_resume_chain_I1_ff.
+
+(* snapshot_every_n_steps = 1, iterable datasets with OR without a state of their own: chains of checkpoint/resume are exact *)
+Theorem iter_resume_chain_default : forall c, c_kind c = KIter -> 0 < c_W c -> 0 < c_P c -> c_I c = 1 ->
+  forall ks sched, fold_right Nat.add 0 ks <= length (reference c) ->
+  let '(s, sched') := chain c ks (sdl_fresh c) sched in
+  let p := fold_right Nat.add 0 ks in
+  outcomes c (S (length (reference c) - p)) s sched' = map OBatch (skipn p (reference c)) ++ [OStop].
+Proof.
+  intros c Hkind HW HP HI1. destruct (c_stateful c) eqn:Hst.
+  - exact (iter_resume_chain_I1 c Hkind HW HP Hst HI1).
+  - exact (iter_resume_chain_I1_ff c Hkind HW HP Hst HI1).
+Qed.
+Print Assumptions iter_resume_chain_default.
